@@ -29,6 +29,7 @@ import (
 	"fmt"
 	"io"
 	"math/big"
+	"net/url"
 	"os"
 	"os/exec"
 	"path/filepath"
@@ -54,6 +55,7 @@ type certFn struct {
 	expired bool
 	cn      string
 	orgs    []string
+	uris    []string // URI SANs as the certificate renders them
 }
 
 type world struct {
@@ -127,6 +129,62 @@ func newWorld(sysCA *lib.CA) *world {
 		signers.Store(kp.Pub.KeyID, kp.Signer)
 	}
 	return w
+}
+
+// customLeaf: a certificate of ca for the cached key `keyName` with a validity window and URI SANs; nil if Go's x509
+// refuses to create or re-parse it (the class is then skipped, never a panic)
+func customLeaf(ca *lib.CA, under, keyName, cn string, notBefore, notAfter time.Time, uris []string) *certFn {
+	kp := lib.GetKeyPair(keyName)
+	rogueSerial++
+	tmpl := &x509.Certificate{
+		SerialNumber: big.NewInt(rogueSerial),
+		Subject:      pkix.Name{CommonName: cn},
+		NotBefore:    notBefore, NotAfter: notAfter,
+		KeyUsage: x509.KeyUsageDigitalSignature,
+	}
+	for _, u := range uris {
+		pu, err := url.Parse(u)
+		if err != nil {
+			return nil
+		}
+		tmpl.URIs = append(tmpl.URIs, pu)
+	}
+	der, err := x509.CreateCertificate(rand.Reader, tmpl, ca.Cert, kp.Signer.Public(), ca.Signer)
+	if err != nil {
+		return nil
+	}
+	c, err := x509.ParseCertificate(der)
+	if err != nil {
+		return nil
+	}
+	p := pem.EncodeToMemory(&pem.Block{Type: "CERTIFICATE", Bytes: der})
+	k := kp.Priv
+	k.KeyVal.Certificate = string(p)
+	signers.Store(k.KeyID, kp.Signer)
+	f := &certFn{name: keyName, leaf: lib.Leaf{Cert: c, Signer: kp.Signer, CertPEM: p, KeyPEM: kp.PrivPEM, Key: k}, under: under, cn: cn}
+	for _, u := range c.URIs {
+		f.uris = append(f.uris, u.String())
+	}
+	f.expired = time.Now().After(notAfter) || time.Now().Before(notBefore)
+	return f
+}
+
+func ccURI(uri string) intoto.CertificateConstraint {
+	c := ccAll()
+	c.URIs = []string{uri}
+	return c
+}
+
+// respeltKeyItem: the link of pool key idx in a scenario where layout, step and functionary spell the key id in another case
+func (w *world) respeltKeyItem(st stepShape, sc *scenario, idx int) *item {
+	k := w.pool[idx].Priv
+	k.KeyID = respell(k.KeyID, sc.respelt[idx] == 2)
+	signers.Store(k.KeyID, w.pool[idx].Signer)
+	it := &item{name: linkName(st.name, k.KeyID), content: dumpMB(signedMB(st.name, k)), label: "key-authorised-id-spelt-in-other-case"}
+	if keyAuthorised(idx, st, sc) {
+		it.honest = k.KeyID
+	}
+	return it
 }
 
 // keyIDWith recomputes the id of key k for another keyid_hash_algorithms value, independently of the library:
@@ -447,6 +505,8 @@ type scenario struct {
 	alias    map[int]int  // layout.Keys[id of pool[a]] = pool[b] (inconsistent layout: validateLayoutKeys would refuse it)
 	shortIDs map[int]bool // the step lists, and the layout defines the key under, only the first 8 characters of the id
 	noOracle bool
+	respelt  map[int]int       // pool key -> 1: the layout, the step and the functionary spell its key id in UPPER case; 2: mixed case
+	extraCAs []*lib.CA         // further intermediate CAs the layout lists
 	repeats  int               // 0 = default
 	e2e      bool              // also run the full InTotoVerify / InTotoVerifyWithDirectory (no later stage can fail by construction)
 	items    map[string][]item // step name -> items
@@ -483,6 +543,16 @@ func ccMatches(c intoto.CertificateConstraint, f *certFn, w *world, roots string
 			}
 		}
 	}
+	if !(len(c.URIs) == 1 && c.URIs[0] == "*") {
+		if len(c.URIs) != len(f.uris) {
+			return false
+		}
+		for i := range f.uris {
+			if c.URIs[i] != f.uris[i] { // one URI per certificate here: compared as the exact strings
+				return false
+			}
+		}
+	}
 	if !(len(c.Roots) == 1 && c.Roots[0] == "*") {
 		// generated only as [id of root] for layouts whose single root is `root`
 		if !(roots == "root" && len(c.Roots) == 1 && c.Roots[0] == w.root.Key.KeyID) {
@@ -504,6 +574,8 @@ func (w *world) chainOK(f *certFn, sc *scenario) bool {
 		return hasRoot
 	case "evil":
 		return sc.roots == "both"
+	case "inter-expired":
+		return false // issued by an intermediate CA whose own certificate has run out
 	case "self", "lookalike":
 		return false // never a layout root, whatever its names and serial numbers say
 	}
@@ -1186,6 +1258,105 @@ func witnessScenarios(w *world, r *lib.Rng) []*scenario {
 			}
 		}
 	}
+	// certificates outside their validity (leaf expired 1 h / 24 h ago, leaf not yet valid, intermediate expired with the leaf
+	// still valid / expired with it): the link that would complete the threshold is not counted; valid twin accepted
+	{
+		now := time.Now()
+		oldInter := lib.NewCA("inter-old", w.root, lib.CertOpts{NotBefore: now.Add(-72 * time.Hour), NotAfter: now.Add(-2 * time.Hour)})
+		variants := []struct {
+			label string
+			f     *certFn
+			extra []*lib.CA
+			good  bool
+		}{
+			{"cert-expired-1h-ago", customLeaf(w.inter, "inter", "ecdsa256-c02-exp1h", "ivan", now.Add(-48*time.Hour), now.Add(-time.Hour), nil), nil, false},
+			{"cert-expired-24h-ago", customLeaf(w.inter, "inter", "ecdsa256-c02-exp24h", "ivan", now.Add(-48*time.Hour), now.Add(-24*time.Hour), nil), nil, false},
+			{"cert-not-yet-valid", customLeaf(w.inter, "inter", "ecdsa256-c02-future", "ivan", now.Add(time.Hour), far(), nil), nil, false},
+			{"cert-valid-under-expired-intermediate", customLeaf(oldInter, "inter-expired", "ecdsa256-c02-oldinter1", "ivan", now.Add(-48*time.Hour), far(), nil), []*lib.CA{oldInter}, false},
+			{"cert-expired-with-its-intermediate", customLeaf(oldInter, "inter-expired", "ecdsa256-c02-oldinter2", "ivan", now.Add(-48*time.Hour), now.Add(-3*time.Hour), nil), []*lib.CA{oldInter}, false},
+			{"cert-valid-twin", customLeaf(w.inter, "inter", "ecdsa256-c02-validtwin", "ivan", now.Add(-48*time.Hour), far(), nil), nil, true},
+		}
+		for v, x := range variants {
+			if x.f == nil {
+				continue
+			}
+			sc := &scenario{klass: "certificate-outside-validity-completes-threshold", defined: map[int]bool{}, items: map[string][]item{}, roots: "root", interIn: "layout", extraCAs: x.extra}
+			st := stepShape{name: "build", threshold: 2, ccs: []intoto.CertificateConstraint{ccAll()}}
+			if v%2 == 1 {
+				st.ccs = []intoto.CertificateConstraint{ccCN("ivan"), ccCN("grace")}
+			}
+			sc.steps = []stepShape{st}
+			sc.addItem(st, w.certItem(st, sc, w.leaves["grace"], "cert-grace"))
+			sc.addItem(st, w.certItem(st, sc, x.f, x.label))
+			out = append(out, sc)
+		}
+	}
+	// a concrete uris constraint: only the certificate with exactly that URI counts; near misses (query, fragment, userinfo,
+	// escaped slash, upper-case host, trailing slash) complete nothing
+	{
+		exact := "spiffe://example.com/ci/release"
+		now := time.Now()
+		mk := func(i int, uri string) *certFn {
+			return customLeaf(w.inter, "inter", fmt.Sprintf("ecdsa256-c02-uri%d", i), "ci", now.Add(-time.Hour), far(), []string{uri})
+		}
+		good1, good2 := mk(0, exact), mk(1, exact)
+		near := []string{exact + "?pool=untrusted", exact + "#pr-builds", "spiffe://guest@example.com/ci/release", "spiffe://example.com/ci%2Frelease",
+			"spiffe://EXAMPLE.COM/ci/release", exact + "/", "spiffe://example.com/ci/release/extra", "https://example.com/ci/release"}
+		if good1 != nil && good2 != nil {
+			{ // accept-side twin: two functionaries with the exact URI
+				sc := &scenario{klass: "uri-constraint-near-misses", defined: map[int]bool{}, items: map[string][]item{}, roots: "root", interIn: "layout"}
+				st := stepShape{name: "build", threshold: 2, ccs: []intoto.CertificateConstraint{ccURI(exact)}}
+				sc.steps = []stepShape{st}
+				sc.addItem(st, w.certItem(st, sc, good1, "cert-uri-exact"))
+				sc.addItem(st, w.certItem(st, sc, good2, "cert-uri-exact"))
+				out = append(out, sc)
+			}
+			for i, u := range near {
+				f := mk(i+2, u)
+				if f == nil {
+					continue
+				}
+				sc := &scenario{klass: "uri-constraint-near-misses", defined: map[int]bool{}, items: map[string][]item{}, roots: "root", interIn: "layout"}
+				st := stepShape{name: "build", threshold: 2, ccs: []intoto.CertificateConstraint{ccURI(exact)}}
+				sc.steps = []stepShape{st}
+				sc.addItem(st, w.certItem(st, sc, good1, "cert-uri-exact"))
+				sc.addItem(st, w.certItem(st, sc, f, "cert-uri-near-miss:"+f.uris[0]))
+				if i%3 == 2 { // and all near misses so far together
+					for j := 0; j < i; j++ {
+						if g := mk(j+2, near[j]); g != nil {
+							sc.addItem(st, w.certItem(st, sc, g, "cert-uri-near-miss:"+g.uris[0]))
+						}
+					}
+				}
+				out = append(out, sc)
+			}
+		}
+	}
+	// a functionary whose key id is spelt in UPPER (or mixed) case everywhere — layout key, pubkeys entry, signature keyid,
+	// file name: a key id is a label (validateHexString accepts both cases); the link is needed for the threshold and counts
+	{
+		var withLetter []int
+		for i := range w.pool {
+			if p := short(w.pool[i].Pub.KeyID); strings.ToUpper(p) != p {
+				withLetter = append(withLetter, i)
+			}
+		}
+		for v := 0; v < 4 && len(withLetter) >= 2; v++ {
+			a, b := withLetter[v%len(withLetter)], withLetter[(v+1)%len(withLetter)]
+			sc := &scenario{klass: "upper-case-key-id-functionary", defined: map[int]bool{a: true, b: true}, respelt: map[int]int{a: 1 + v%2}, items: map[string][]item{}, roots: "root", interIn: "layout"}
+			st := stepShape{name: "build", threshold: 2, pubkeys: []int{a, b}}
+			if v >= 2 {
+				st.threshold = 1
+				st.pubkeys = []int{a}
+			}
+			sc.steps = []stepShape{st}
+			sc.addItem(st, w.respeltKeyItem(st, sc, a))
+			if v < 2 {
+				sc.addItem(st, w.keyItem(st, sc, b, "key-authorised"))
+			}
+			out = append(out, sc)
+		}
+	}
 	// an outsider's link carrying an authorised functionary's certificate plus the outsider's own key block
 	for v := 0; v < 8; v++ {
 		sc := &scenario{klass: "borrowed-certificate-with-own-key-block", defined: map[int]bool{}, items: map[string][]item{}, roots: "root", interIn: "layout"}
@@ -1475,7 +1646,11 @@ func (w *world) buildInput(sc *scenario) input {
 			if sc.shortIDs[i] {
 				id = short(id)
 			}
-			if b, ok := sc.alias[i]; ok {
+			if m := sc.respelt[i]; m != 0 {
+				k := w.pool[i].Pub
+				k.KeyID = respell(id, m == 2)
+				l.Keys[k.KeyID] = k
+			} else if b, ok := sc.alias[i]; ok {
 				l.Keys[id] = w.pool[b].Pub
 			} else {
 				l.Keys[id] = w.pool[i].Pub
@@ -1494,6 +1669,12 @@ func (w *world) buildInput(sc *scenario) input {
 	if sc.interIn == "extra" {
 		in.Intermediates = []string{string(w.inter.PEM)}
 	}
+	for _, ca := range sc.extraCAs {
+		if l.IntermediateCas == nil {
+			l.IntermediateCas = map[string]intoto.Key{}
+		}
+		l.IntermediateCas[ca.Key.KeyID] = ca.Key
+	}
 	in.Honest = map[string][]string{}
 	for _, st := range sc.steps {
 		s := intoto.Step{Type: "step", Threshold: st.threshold, CertificateConstraints: st.ccs, PubKeys: []string{}}
@@ -1501,6 +1682,8 @@ func (w *world) buildInput(sc *scenario) input {
 		for _, p := range st.pubkeys {
 			if sc.shortIDs[p] {
 				s.PubKeys = append(s.PubKeys, short(w.pool[p].Pub.KeyID))
+			} else if m := sc.respelt[p]; m != 0 {
+				s.PubKeys = append(s.PubKeys, respell(w.pool[p].Pub.KeyID, m == 2))
 			} else {
 				s.PubKeys = append(s.PubKeys, w.pool[p].Pub.KeyID)
 			}
@@ -1931,7 +2114,7 @@ func vsigTruth(md intoto.Metadata, raw []byte, k candKey) bool {
 
 func poolPublic(w *world, id string) (crypto.PublicKey, string) {
 	for _, kp := range w.pool {
-		if kp.Pub.KeyID == id {
+		if strings.EqualFold(kp.Pub.KeyID, id) { // the id is a label; the key material is what is looked up here
 			return kp.Signer.Public(), kp.Name
 		}
 	}
